@@ -34,7 +34,7 @@ def run(d, allprops):
         for prop in props:
             e=dict(ENV, HIVECHECK_REPO=repo, HIVECHECK_VERIF=ver, HIVECHECK_WORK=os.path.join(t,'work-'+prop))
             try:
-                q=subprocess.run(['/verif/.bin/hivecheck','-property',prop,'-tier','quick'],env=e,capture_output=True,text=True,timeout=600)
+                q=subprocess.run([os.environ.get('HIVECHECK_BIN','/verif/.bin/hivecheck'),'-property',prop,'-tier','quick'],env=e,capture_output=True,text=True,timeout=600)
             except subprocess.TimeoutExpired:
                 res.append((prop,'ERROR',['checker did not finish within 600 s (hang)'])); continue
             failed=[l.strip() for l in (q.stdout+q.stderr).splitlines() if l.strip().startswith('FAILED')]
